@@ -81,7 +81,7 @@ def run(rep):
                          msteps[k] if k < len(msteps) else None, (isteps[k] if k < len(isteps) else None, r.get("excs")))
         # the property itself: no two refs may collide as file versus directory, at any step
         for k, stepdump in enumerate(v.split("|")):
-            present = [unhx(x.split("=")[0]) for x in stepdump.split(" ", 1)[1].split(",") if "=" in x]
+            present = [unhx(x.split("=")[0]) for x in (stepdump.split(" ", 1) + [""])[1].split(",") if "=" in x]
             hit = [(a, b) for a in present for b in present if b.startswith(a + b"/")]
             if hit:
                 rep.fail("df-collision", "refs %r and %r exist together (file/directory collision not refused)" % hit[0],
